@@ -421,6 +421,13 @@ int janet_verify(JanetFuncDef *def) {
      * min_arity arguments and expects the call to succeed). */
     if (def->min_arity < 0 || def->min_arity > def->arity || def->arity > def->max_arity) return 10;
 
+    /* An environment index is either -1 (the frame of the enclosing function) or an
+     * index into the environments of the enclosing function; the upper bound is
+     * checked when the closure is created. */
+    for (i = 0; i < def->environments_length; i++) {
+        if (def->environments[i] < -1) return 11;
+    }
+
     /* Verify each instruction */
     for (i = 0; i < def->bytecode_length; i++) {
         uint32_t instr = def->bytecode[i];
